@@ -545,6 +545,57 @@ func init() {
 					}
 				}
 			}
+			// big documents: the number of values, the width and the depth must not matter (12 000 scalars in
+			// one array, 3 000 row objects, an array of arrays of arrays, nesting 2 000 deep)
+			{
+				var big []string
+				var b strings.Builder
+				b.WriteString("[")
+				for i := 0; i < 12000; i++ {
+					if i > 0 {
+						b.WriteString(",")
+					}
+					fmt.Fprintf(&b, "%d", i)
+				}
+				b.WriteString("]")
+				big = append(big, b.String())
+				b.Reset()
+				b.WriteString(`{"rows":[`)
+				for i := 0; i < 3000; i++ {
+					if i > 0 {
+						b.WriteString(",")
+					}
+					fmt.Fprintf(&b, `{"id":%d,"name":"n%d","ok":%v,"tags":["a",null]}`, i, i, i%2 == 0)
+				}
+				b.WriteString(`]}`)
+				big = append(big, b.String())
+				b.Reset()
+				b.WriteString(`{"m":[`)
+				for i := 0; i < 60; i++ {
+					if i > 0 {
+						b.WriteString(",")
+					}
+					b.WriteString("[")
+					for j := 0; j < 60; j++ {
+						if j > 0 {
+							b.WriteString(",")
+						}
+						fmt.Fprintf(&b, "[%d,%d]", i, j)
+					}
+					b.WriteString("]")
+				}
+				b.WriteString(`]}`)
+				big = append(big, b.String())
+				big = append(big, strings.Repeat(`{"a":[`, 1000)+`"deep"`+strings.Repeat(`]}`, 1000))
+				for _, doc := range big {
+					for _, kind := range []string{"json", "json-copy"} {
+						if !try(c08Case{Kind: kind, Doc: doc}) {
+							return
+						}
+						c.Count("big_json_documents", 1)
+					}
+				}
+			}
 			nmax := 3
 			if !c.Quick() {
 				nmax = 4
